@@ -567,6 +567,10 @@ void World::ledger_frame(Client &cl, const Frame &f) {
 	const JV *id = f.j.get("id");
 	bool r = f.j.has("result"), e = f.j.has("error");
 	if (r == e) violation("C02", "result-and-error", "response carries both or neither of result and error: " + frame_text(f));
+	if (id->t == JV::Null) {
+		// a numeric id beyond the range of a double (1e900) cannot be echoed by the daemon's JSON library, which prints it as null: a finding of its own
+		for (const char *k : {"ninf", "n-inf"}) { auto nf = cl.ledger.find(k); if (nf != cl.ledger.end() && nf->second > 0) { nf->second--; violation("C02", "nonfinite-numeric-id-answered-with-null", "a request whose numeric id lies outside the range of a double was answered with " + frame_text(f) + " instead of a response carrying an equal id"); return; } }
+	}
 	if (id->t != JV::Str && id->t != JV::Num) violation("C02", "response-id-type", "response with an id that is neither string nor number: " + frame_text(f));
 	auto it = cl.ledger.find(idkey(*id));
 	while ((it == cl.ledger.end() || it->second <= 0) && feed_one_pending()) it = cl.ledger.find(idkey(*id)); // a message of the same read not yet accounted
